@@ -528,7 +528,8 @@ where
 
         let mut ancestor: FxHashMap<usize, Option<usize>> = FxHashMap::default();
         let mut label: FxHashMap<usize, usize> = FxHashMap::default();
-        for &vertex in self.vertices.keys() {
+        // only vertices reachable from the root take part
+        for &vertex in dfs_pre_order.iter() {
             ancestor.insert(vertex, None);
             label.insert(vertex, dfs_number[&vertex]);
         }
@@ -539,6 +540,9 @@ where
             let mut min_semi = usize::MAX;
 
             for &pred in &self.predecessors[&vertex] {
+                if !dfs_number.contains_key(&pred) {
+                    continue;
+                }
                 if ancestor[&pred].is_some() {
                     compress(&mut ancestor, &mut label, pred);
                 }
